@@ -6,6 +6,8 @@ import re
 SIGMA_DOC = ["k", " ", "\n", ",", "=", "{", "}", '"', "#", "1", "s", "\\", "@",
              "@article{", "@comment{", "@string{", "@preamble{"]
 SIGMA_DOC_EXT = SIGMA_DOC + ["\r\n", "\xa0", "é", "\x0c", " "]
+# characters that mean something to a template, a %-format or a regular expression, next to the structural core
+SIGMA_DOC_MINI = ["k", "\n", ",", "=", "{", "}", '"', "@article{", "@comment{", "%s", "%", "{0}", "{n}", "\\1", ".*", "(", "[", "$", "|", "+?"]
 # 12-token core for the deepest runs
 SIGMA_DOC_CORE = ["k", " ", "\n", ",", "=", "{", "}", '"', "\\", "@", "@article{", "@comment{"]
 
